@@ -183,7 +183,7 @@ def _classify(src, ans):
                 return 'C06/%s/hex-escape' % name
             if b'\\\r\n' in src:
                 return 'C06/%s/backslash-crlf' % name
-        return 'C06/%s/%s' % (name, src[:10].hex())
+        return 'C06/%s' % name
     if ans == 'false':
         return 'C06/error-or-relex'
     return 'C06/other/' + ans[:20]
@@ -220,7 +220,7 @@ def _eval_rows(mon, rows):
         for lab, x in zip(lb, ans[a:b]):
             if x != 'true':
                 if lab.endswith('/relex'):
-                    sig = 'C06/relex/%s' % r['src'][:10].hex()
+                    sig = 'C06/relex'
                 elif lab.endswith('/error'):
                     sig = 'C06/error/%s' % r[lab.split('/')[0]]['err']
                 else:
